@@ -20,7 +20,7 @@ func init() {
 	register(&Check{
 		ID: "C08", Level: "exploration", Primary: "cells", EvalCount: "connections_checked",
 		Rule: "matrix: connection endings {client FIN, client RST, Unbind, malformed frame, unsupported operation, mid-frame disconnect, read-timeout expiry, recovered panic in an inline (unbind-route) handler, " +
-			"recovered panic in a request-goroutine handler followed by FIN, server Stop} x in-flight states {no handler, k handlers parked on a harness gate (with distinct message IDs, all with the same one, and parked only after they have sent their final response), handlers writing large responses, slow requests sent in the same write as the ending (dispatched just before the connection ends), the inline StartTLS handler blocked in a handshake the client never completes (plain transport; endings FIN, RST, read timeout, Stop), the same with two handlers of earlier requests parked, two handlers parked BEFORE a StartTLS upgrade that succeeds (endings FIN, RST, Stop), a parked handler next to one that writes a large response nobody reads (ending Stop; the client probes the server's socket by writing, seconds later), 4 handlers parked behind 66 that were dispatched before them and have returned (endings FIN, Unbind, Stop, RST), a parked handler next to one that left its goroutine with runtime.Goexit after answering (endings FIN, Unbind, Stop)} x transports {plain, TLS listener, " +
+			"recovered panic in a request-goroutine handler followed by FIN, Unbind whose Unbind-route handler is itself slow to return (recorded as a handler of the connection), server Stop} x in-flight states {no handler, k handlers parked on a harness gate (with distinct message IDs, all with the same one, and parked only after they have sent their final response), handlers writing large responses, slow requests sent in the same write as the ending (dispatched just before the connection ends), the inline StartTLS handler blocked in a handshake the client never completes (plain transport; endings FIN, RST, read timeout, Stop), the same with two handlers of earlier requests parked, two handlers parked BEFORE a StartTLS upgrade that succeeds (endings FIN, RST, Stop), a parked handler next to one that writes a large response nobody reads (ending Stop; the client probes the server's socket by writing, seconds later), 4 handlers parked behind 66 that were dispatched before them and have returned (endings FIN, Unbind, Stop, RST), a parked handler next to one that left its goroutine with runtime.Goexit after answering (endings FIN, Unbind, Stop)} x transports {plain, TLS listener, " +
 			"StartTLS-upgraded}; every connection first makes one verified round trip (this maps the client socket to its ConnectionID). For endings where the client stays connected the gate is opened only after the " +
 			"client has watched its socket for a grace period: an EOF seen before the release is a certain violation. Offline oracle over the event log per connection ID: exactly one OnClose, stamped after " +
 			"the exit of every handler of that connection; at quiescence no goroutine with a gldap frame and no socket descriptor remain. distinct_nontrivial = distinct (ending, in-flight, transport) cells exercised",
@@ -28,7 +28,7 @@ func init() {
 		Phases: func(tier string, seed int64) []Phase {
 			return []Phase{{Name: "matrix", Run: c08Run}}
 		},
-		MinObserved: []string{"connections_checked", "endings_with_handlers_parked_behind_more_than_64_that_returned", "endings_after_a_handler_left_its_goroutine_by_goexit", "onclose_events", "handler_exits_recorded", "eof_withheld_until_release_observed", "just_dispatched_endings_checked", "endings_with_a_starttls_handshake_pending", "connections_closed_while_another_connection_waits_for_its_handler", "connections_with_failed_writes_next_to_a_parked_handler", "tls_connections_ended_before_the_handshake", "endings_with_parked_handlers_and_a_starttls_handshake_pending", "endings_of_connections_upgraded_while_handlers_were_parked", "stop_endings_on_a_server_without_panic_recovery", "stop_endings_with_a_parked_handler_next_to_a_writer_nobody_reads"},
+		MinObserved: []string{"connections_checked", "endings_with_handlers_parked_behind_more_than_64_that_returned", "endings_after_a_handler_left_its_goroutine_by_goexit", "onclose_events", "handler_exits_recorded", "eof_withheld_until_release_observed", "just_dispatched_endings_checked", "endings_with_a_starttls_handshake_pending", "connections_closed_while_another_connection_waits_for_its_handler", "connections_with_failed_writes_next_to_a_parked_handler", "tls_connections_ended_before_the_handshake", "endings_with_parked_handlers_and_a_starttls_handshake_pending", "endings_of_connections_upgraded_while_handlers_were_parked", "stop_endings_on_a_server_without_panic_recovery", "stop_endings_with_a_parked_handler_next_to_a_writer_nobody_reads", "unbind_endings_whose_unbind_route_handler_takes_its_time"},
 	})
 }
 
@@ -50,6 +50,7 @@ type c08World struct {
 	mu           sync.Mutex
 	byTag        map[string]*c08Track
 	panicUnbind  sync.Map // connID -> true
+	slowUnbind   sync.Map // connID -> *c08Track: the Unbind-route handler of that connection records itself and takes its time
 	pki          *PKI
 }
 
@@ -134,6 +135,19 @@ func (wd *c08World) register(m *gldap.Mux) {
 	m.Unbind(func(w *gldap.ResponseWriter, r *gldap.Request) {
 		if _, ok := wd.panicUnbind.LoadAndDelete(r.ConnectionID()); ok {
 			panic("injected inline handler panic (C08)")
+		}
+		if v, ok := wd.slowUnbind.LoadAndDelete(r.ConnectionID()); ok {
+			// the Unbind-route handler is a handler of this connection like any other: it is recorded, and it has not
+			// returned yet when the read loop has nothing more to read
+			t := v.(*c08Track)
+			ev := &c08HEv{Enter: nextSeq()}
+			t.mu.Lock()
+			t.handlers = append(t.handlers, ev)
+			t.mu.Unlock()
+			time.Sleep(40 * time.Millisecond)
+			t.mu.Lock()
+			ev.Exit = nextSeq()
+			t.mu.Unlock()
 		}
 	})
 }
@@ -392,6 +406,10 @@ func c08OneCell(c *Ctx, wd *c08World, srv *Srv, cell c08Cell, stopper func()) {
 	case "panic-inline":
 		wd.panicUnbind.Store(connID, true)
 		cl.Send(append(pre, sber.Message(93, sber.UnbindRequest(), nil).Encode()...))
+	case "unbind-slow-handler":
+		wd.slowUnbind.Store(connID, t)
+		cl.Send(append(pre, sber.Message(95, sber.UnbindRequest(), nil).Encode()...))
+		c.Count("unbind_endings_whose_unbind_route_handler_takes_its_time", 1)
 	case "panic-goroutine+fin":
 		cl.Send(append(pre, c08Search(94, tag+";panic")...))
 		for dl := time.Now().Add(patience); t.entered.Load() < int64(2+k) && time.Now().Before(dl); {
@@ -795,6 +813,10 @@ func c08RunWith(c *Ctx, writeEntries, sweeps int) {
 		cells = append(cells, c08Cell{e, "parked-behind-many-that-returned", "plain"}, c08Cell{e, "left-by-goexit", "plain"})
 	}
 	cells = append(cells, c08Cell{"rst", "parked-behind-many-that-returned", "tls"}, c08Cell{"fin", "left-by-goexit", "starttls"})
+	// the Unbind-route handler itself is slow to return: the connection's end waits for it as for any other handler
+	for _, tr := range c08Transports {
+		cells = append(cells, c08Cell{"unbind-slow-handler", "none", tr}, c08Cell{"unbind-slow-handler", "parked", tr})
+	}
 	reps := c.N(1, 50)
 	if sweeps > 0 {
 		reps = sweeps
